@@ -138,7 +138,14 @@ fn random_pool(rng: &mut Rng, kind: &str, n: usize) -> Vec<J> {
         json!({"k": "str", "cp": (0..len).map(|_| *rng.pick(&alphabet)).collect::<Vec<_>>()})
       }
       _ => {
-        let y = if rng.chance(1, 5) { rng.below(9999) as i64 + 1 } else { 1990 + rng.below(40) as i64 };
+        // also years that print with a sign or with more than four digits
+        let y = match rng.below(10) {
+          0 | 1 => rng.below(9999) as i64 + 1,
+          2 => -(rng.below(9999) as i64 + 1),
+          3 => 10000 + rng.below(250000) as i64,
+          4 => -(10000 + rng.below(250000) as i64),
+          _ => 1990 + rng.below(40) as i64,
+        };
         let m = 1 + rng.below(12);
         let d = 1 + rng.below(28);
         json!({"k": "date", "y": y, "m": m, "d": d})
